@@ -691,11 +691,14 @@ where
     }
 
     fn update_needed_len(&mut self) {
-        self.needed_input_size = (self.last_index as f32
-            + self.chunk_size as f32
-                / (0.5 * self.resample_ratio as f32 + 0.5 * self.target_ratio as f32)
-            + self.interpolator.len() as f32)
-            .ceil() as usize;
+        // The position advances by the sum of the per-frame steps,
+        // t_start + k * (t_end - t_start) / chunk_size for k = 1..=chunk_size.
+        let t_ratio = 1.0 / self.resample_ratio;
+        let t_ratio_end = 1.0 / self.target_ratio;
+        let frames = self.chunk_size as f64;
+        let advance = frames * t_ratio + 0.5 * (t_ratio_end - t_ratio) * (frames + 1.0);
+        self.needed_input_size =
+            (self.last_index + advance + self.interpolator.len() as f64).ceil() as usize;
     }
 }
 
